@@ -1459,6 +1459,44 @@ Check C04_cost_path_upper : forall dbg,
      <= 18 * C04_CostPathDD.total_len segs + 7 * nlen (map nlen segs) + 1).
 Print Assumptions C04_cost_path_upper.
 
+From RU Require Proofs.C04_CostPuny.
+
+(* the Punycode ENCODER (Proofs/C04_CostPuny.v): one pass for the basic code points, then per iteration of
+   `while processed < input_length` one pass for the minimum and one pass of the inner loop; digits are counted by the
+   length of the output.  (1) every input, both callers: steps <= n + (n + 1)(2n + 2) + 1 + |output| - the quadratic
+   upper bound for the PUBLIC encoder (finding F-C04-10: no cap there); (2) under the cap of the internal caller
+   (n <= 1000: what the uts46 walks can hand to it, C04_cost_uts46_walks part 3): steps <= 2005 (n + 1) + |output|, a
+   constant per character; (3) F-C04-10 in the cost model by computation: n pairwise distinct CJK characters cost at
+   least 2 n^2 (n = 50, 100, 200), 200 copies of one character at most 1020.  The decoder has no cost twin. *)
+Theorem C04_cost_punycode :
+  (forall cfg ext input,
+     C04_CostPuny.encode_cost cfg ext input
+     <= C04_CostPuny.plen input + (C04_CostPuny.plen input + 1) * (2 * C04_CostPuny.plen input + 2) + 1
+        + C04_CostPuny.out_len (Punycode.encode_into cfg ext input))
+  /\ (forall cfg ext input, C04_CostPuny.plen input <= 1000 ->
+     C04_CostPuny.encode_cost cfg ext input
+     <= 2005 * (C04_CostPuny.plen input + 1) + C04_CostPuny.out_len (Punycode.encode_into cfg ext input))
+  /\ (2 * 50 * 50 <= C04_CostPuny.encode_cost false true (C04_CostPuny.distinct_cjk 50)
+      /\ 2 * 100 * 100 <= C04_CostPuny.encode_cost false true (C04_CostPuny.distinct_cjk 100)
+      /\ 2 * 200 * 200 <= C04_CostPuny.encode_cost false true (C04_CostPuny.distinct_cjk 200)
+      /\ C04_CostPuny.encode_cost false true (map (fun _ => 19968) (C04_CostPuny.distinct_cjk 200)) <= 5 * 200 + 20).
+Proof.
+  exact (conj C04_CostPuny.encode_cost_le (conj C04_CostPuny.encode_cost_capped C04_CostPuny.f_c04_10_quadratic_50_100_200)).
+Qed.
+Check C04_cost_punycode :
+  (forall cfg ext input,
+     C04_CostPuny.encode_cost cfg ext input
+     <= C04_CostPuny.plen input + (C04_CostPuny.plen input + 1) * (2 * C04_CostPuny.plen input + 2) + 1
+        + C04_CostPuny.out_len (Punycode.encode_into cfg ext input))
+  /\ (forall cfg ext input, C04_CostPuny.plen input <= 1000 ->
+     C04_CostPuny.encode_cost cfg ext input
+     <= 2005 * (C04_CostPuny.plen input + 1) + C04_CostPuny.out_len (Punycode.encode_into cfg ext input))
+  /\ (2 * 50 * 50 <= C04_CostPuny.encode_cost false true (C04_CostPuny.distinct_cjk 50)
+      /\ 2 * 100 * 100 <= C04_CostPuny.encode_cost false true (C04_CostPuny.distinct_cjk 100)
+      /\ 2 * 200 * 200 <= C04_CostPuny.encode_cost false true (C04_CostPuny.distinct_cjk 200)
+      /\ C04_CostPuny.encode_cost false true (map (fun _ => 19968) (C04_CostPuny.distinct_cjk 200)) <= 5 * 200 + 20).
+Print Assumptions C04_cost_punycode.
+
 (* ================================================================== the overall linear-time statement *)
 (* "runs no longer than a constant times its input length", IN THE COST MODEL, with the exact known classes.  Every cost
    twin of the development (Model/Cost.v, Proofs/C04_Cost*.v) has a linear bound, except inside:
@@ -1468,7 +1506,8 @@ Print Assumptions C04_cost_path_upper.
    and relative to parameters where the model has parameters (host functions; the Punycode encoder inside the uts46
    walks, capped at 1000 scalar values: part 8).
    NOT expressible here, because the function has no cost twin (the harness doubling experiment only):
-     F-C04-10 (the public punycode functions: quadratic and uncapped - C04_punycode_cap states what is capped),
+     F-C04-10 (the public punycode functions: the encoder is quadratic and uncapped - upper bound and witnesses in
+               C04_cost_punycode, linear under the cap: part 9 -, the decoder has no cost twin),
      F-C04-11 (Url::origin on nested blob: URLs: recursion depth = number of "blob:" levels, bounded only by the number
                of ':' in the serialization - C16_parse_colons - and on the machine stack in the Rust),
      the label pipeline process_inner of uts46 (linear passes plus the capped Punycode decoder, relative to the
@@ -1513,6 +1552,10 @@ Definition C04_linear_statement : Prop :=
         | Uts46.IRes _ _ _ db _ => Forall Idna_WalkEnc.capped (Uts46.split_on Uts46.DOT db)
         | Uts46.IPanic _ => True
         end)
+  (* 9 the Punycode encoder under the cap of its internal caller (1000 scalar values): a constant per character *)
+  /\ (forall cfg ext input, C04_CostPuny.plen input <= 1000 ->
+        C04_CostPuny.encode_cost cfg ext input
+        <= 2005 * (C04_CostPuny.plen input + 1) + C04_CostPuny.out_len (Punycode.encode_into cfg ext input))
   (* the known classes are inhabited: no linear bound for the path state (F-C04-8) *)
   /\ (forall a b : N, exists pre l dbg hh, usv_list l /\
         a * (nlen (pre ++ [47]) + nlen l) + b
@@ -1532,6 +1575,7 @@ Proof.
   split; [exact C04_CostMime.mime_parse_cost_le|].
   split; [exact C04_CostIdna.walk1_wsize|]. split; [exact C04_CostIdna.walk2_wsize|].
   split; [intros A cfg hy deny d HU; exact (C04_CostIdna.labels_capped A cfg HU hy deny d)|].
+  split; [exact C04_CostPuny.encode_cost_capped|].
   exact C04_CostPath.path_cost_not_linear.
 Qed.
 Check C04_linear : C04_linear_statement.
